@@ -9,7 +9,8 @@ Import ListNotations.
    on an error carrying any ECAL data, call, return, resume, finish) and command lines, and
    EVERY input line (any words — command names or not — any number of arguments of any kind,
    any answer of the scopes / the expression evaluator): the call returns a JSON-encodable
-   result or an error (never panics, never waits), the lock counter is back at its value, every
+   result or an error (never panics, never waits), the number of held debugger locks (ed.lock and
+   the condition mutex of every interrogated thread) is back at its value, every
    following line is answered as well and a following "status" returns a result. *)
 Theorem C16_handle_total :
   total_interface dstate (list token) oracle gval model_handler locks_total json_ok is_status reachable.
